@@ -41,10 +41,17 @@ Theorem C18_types : forall L target c imps,
     NoDup (map snd imps) ->
     forall t,
       (fx_errlit c = true \/ no_error t = true) ->
+      has_iface_lit t = false ->
       imported L target imps t ->
       denotes imps target (fst (type_lit L target c t)) t = true.
 Proof. exact type_lit_denotes. Qed.
 Print Assumptions C18_types.
+
+(* known finding unnamed_method_interface_rendered_any: the guard above is needed *)
+Theorem C18_types_refuted_method_interface : forall L target c imps txt,
+    denotes imps target (fst (type_lit L target c (TIfaceLit txt))) (TIfaceLit txt) = false.
+Proof. exact type_lit_iface_refuted. Qed.
+Print Assumptions C18_types_refuted_method_interface.
 
 (* and the paths it registers with the tracker are exactly the foreign packages the type mentions *)
 Theorem C18_type_imports : forall L target c t,
